@@ -112,28 +112,49 @@ func c30(c *core.Ctx) {
 		}
 	}
 	// every server channel starts from its own configuration object: the negotiated policy and mode are written into it
-	c.Rule("C30.fresh", "the uasc.Config handed to NewServerSecureChannel is allocated per connection (defaultChannelConfig returns a fresh object): the policy / mode negotiated on one channel is written into that object and must not become the starting point — or the effective mode — of another client's channel", 1)
-	if dcc := fn(c, "server", "", "defaultChannelConfig"); dcc != nil {
-		ok := true
-		detail := "returns a fresh allocation"
-		for _, r := range ssax.Returns(dcc) {
-			v := ssax.Strip(ssax.RetVal(r, 0))
-			if _, isAlloc := v.(*ssa.Alloc); !isAlloc {
-				ok = false
-				detail = "returns " + ssax.Path(v) + ", not an object allocated by the call: all server channels share it"
-			} else if al := v.(*ssa.Alloc); !al.Heap {
-				ok = false
+	c.Rule("C30.fresh", "the uasc.Config handed to NewServerSecureChannel is allocated per connection (a fresh object, in place or from a constructor that allocates on every return): the policy / mode negotiated on one channel is written into that object and must not become the starting point — or the effective mode — of another client's channel", 1)
+	{
+		// followed from the call that creates the channel: the argument is an object allocated for this call, either
+		// in place or by a constructor every return of which hands out its own allocation (whatever it is called)
+		var fresh func(v ssa.Value, d int) (bool, string)
+		fresh = func(v ssa.Value, d int) (bool, string) {
+			v = ssax.Strip(v)
+			switch x := v.(type) {
+			case *ssa.Alloc:
+				if x.Heap {
+					return true, "a fresh allocation"
+				}
+			case *ssa.Call:
+				h := x.Call.StaticCallee()
+				if h != nil && len(h.Blocks) > 0 && d < 3 {
+					for _, r := range ssax.Returns(h) {
+						if len(r.Results) == 0 {
+							return false, fname(h) + " returns nothing"
+						}
+						if ok, why := fresh(ssax.RetVal(r, 0), d+1); !ok {
+							return false, fname(h) + " returns " + why
+						}
+					}
+					return true, "allocated by " + fname(h) + " on every return"
+				}
+			case *ssa.Phi:
+				if d < 3 {
+					for _, e := range x.Edges {
+						if ok, why := fresh(e, d+1); !ok {
+							return false, why
+						}
+					}
+					return true, "a fresh allocation on every path"
+				}
 			}
+			return false, ssax.Path(v) + ", not an object allocated for this connection: all server channels share it"
 		}
-		c.Ob("C30.fresh", fname(dcc)+"·fresh config per connection", c.P.Pos(dcc.Pos()), ok, detail)
-	} else {
-		// inlined at the call site: the argument of NewServerSecureChannel must be a fresh allocation
 		nsc := obj(c, "uasc", "", "NewServerSecureChannel")
 		for _, f := range libFns(c, "server") {
 			for _, call := range ssax.CallsTo(f, nsc) {
 				args := call.Common().Args
-				_, isAlloc := ssax.Strip(args[2]).(*ssa.Alloc)
-				c.Ob("C30.fresh", fname(f)+"·fresh config per connection", pos(c, call), isAlloc, "config argument is a fresh allocation: "+boolStr(isAlloc))
+				ok, why := fresh(args[2], 0)
+				c.Ob("C30.fresh", fname(f)+"·fresh config per connection", pos(c, call), ok, "the configuration handed to NewServerSecureChannel is "+why)
 			}
 		}
 	}
